@@ -43,6 +43,7 @@
 #include <unifex/with_allocator.hpp>
 #include <unifex/with_query_value.hpp>
 #include <unifex/blocking.hpp>
+#include <unifex/sync_wait.hpp>
 #include <unifex/allocate.hpp>
 #include <unifex/defer.hpp>
 #include <unifex/just_from.hpp>
@@ -160,6 +161,7 @@ template <class T> void flat1(Payload& out, const std::optional<T>& o) { if (o) 
 template <class T> void flat1(Payload& out, const std::vector<T>& v) { for (auto& x : v) flat1(out, x); }
 inline void flat1(Payload& out, const std::optional<std::monostate>& o) { if (!o) out.push_back(0); }
 inline void flat1(Payload&, const std::monostate&) {}
+inline void flat1(Payload&, const unifex::unit&) {}
 template <class... A> Payload flat(const A&... a) { Payload p; (flat1(p, a), ...); return p; }
 
 // ---------------------------------------------------------------- tracked callables
@@ -382,7 +384,19 @@ template <class Make> struct OpImpl final : OpHandle {
   OpImpl(Make make, World& w) : op(unifex::connect(make(w), Recv{&w})) {}
   void start() noexcept override { unifex::start(op); }
 };
+// sync_wait as the outermost driver (C05: "sync_wait maps channels as specified")
+struct SwResult { char ch; Payload p; };
+using SwFn = SwResult (*)(World&);
+template <class Make, Make make> SwResult sw_run(World& w) {
+  try {
+    auto r = unifex::sync_wait(make(w));
+    if (!r) return {'d', {}};
+    return {'v', flat(*r)};
+  } catch (Tagged& t) { return {'e', t.p}; }
+  catch (...) { return {'e', {-999}}; }
+}
 struct Registry {
+  static std::map<int, SwFn>& sw() { static std::map<int, SwFn> m; return m; }
   static std::map<int, Factory>& map() { static std::map<int, Factory> m; return m; }
   static std::map<int, Traits>& traits() { static std::map<int, Traits> m; return m; }
 };
@@ -399,6 +413,8 @@ template <class Make, Make make> struct Reg {
   }
 };
 }  // namespace alg
+#define ALG_SHAPE_SW(ID) \
+  static struct SwReg_##ID { SwReg_##ID() { alg::Registry::sw()[ID] = &alg::sw_run<decltype(&make_##ID), &make_##ID>; } } swreg_##ID;
 #define ALG_SHAPE(ID, ...) \
   static auto make_##ID(alg::World& w) { using namespace alg; return __VA_ARGS__; } \
   static alg::Reg<decltype(&make_##ID), &make_##ID> reg_##ID(ID);
